@@ -48,6 +48,15 @@ var Check = &vrt.Check{
 
 const shards = 16
 
+// session structures that the PRNG scenarios of a quick run need not contain: a station that sends AFTER the other has
+// said FF (sender is master and the slave has nothing; or a second block), several blocks one way, traffic one way only
+const shapedBase = 1000
+
+var shapes = []struct {
+	masterIsA bool
+	na, nb    int
+}{{true, 2, 0}, {false, 7, 0}, {true, 6, 1}, {false, 0, 3}}
+
 func plan(seed int64, tier string) []vrt.Case {
 	nsc, nhist := 4, 200
 	if tier == "thorough" {
@@ -59,6 +68,12 @@ func plan(seed int64, tier string) []vrt.Case {
 			cs = append(cs, vrt.Case{ID: fmt.Sprintf("cuts-s%d-%d", s, sh), Params: vrt.MustParams(params{Seed: seed, Kind: "cuts", Scenario: s, Shard: sh, Shards: shards}), TimeoutS: 900})
 		}
 		cs = append(cs, vrt.Case{ID: fmt.Sprintf("fail-s%d", s), Params: vrt.MustParams(params{Seed: seed, Kind: "fail", Scenario: s}), TimeoutS: 600})
+	}
+	for k := range shapes {
+		s := shapedBase + k
+		for sh := 0; sh < shards; sh++ {
+			cs = append(cs, vrt.Case{ID: fmt.Sprintf("cuts-shape%d-%d", k, sh), Params: vrt.MustParams(params{Seed: seed, Kind: "cuts", Scenario: s, Shard: sh, Shards: shards}), TimeoutS: 900})
+		}
 	}
 	ndir := 2
 	if tier == "thorough" {
@@ -140,6 +155,10 @@ func run(c vrt.Case) vrt.Obs {
 	case "cuts", "fail":
 		r := vrt.Rand(p.Seed, "c02", p.Scenario)
 		sc, err := b2fx.GenSmallScenario(r, 7, true)
+		if p.Scenario >= shapedBase {
+			sh := shapes[(p.Scenario-shapedBase)%len(shapes)]
+			sc, err = b2fx.GenShapedScenario(r, sh.masterIsA, sh.na, sh.nb, false)
+		}
 		if err != nil {
 			o.Inconclusive = append(o.Inconclusive, "generator: "+err.Error())
 			return o
@@ -165,6 +184,7 @@ func run(c vrt.Case) vrt.Obs {
 					b2fx.CheckReturned(&o, res, what)
 					ev := w.lg.Events()
 					b2fx.CheckSafety(&o, sc, ev)
+					b2fx.CheckNilMeansDone(&o, res, w.a, w.b, ev, what)
 					if res.A.Err == nil && res.B.Err == nil {
 						o.Count("cut_sessions_that_still_completed", 1)
 					} else {
